@@ -2361,6 +2361,48 @@ const Event* last_check(const Plan& p, int pol) {
 
 } // namespace
 
+Plan restrict_to_policy(const Plan& p, int keep) {
+    Plan q = p;
+    q.diff.clear();
+    q.orders.clear();
+    q.pols = {p.pols[keep]};
+    std::vector<int> remap(p.recs.size(), -1);
+    q.recs.clear();
+    for (std::size_t i = 0; i < p.recs.size(); ++i) {
+        if (p.recs[i].pol != keep)
+            continue;
+        remap[i] = (int)q.recs.size();
+        Rec r = p.recs[i];
+        r.pol = 0;
+        q.recs.push_back(r);
+    }
+    for (auto& r : q.recs)
+        if (r.kind == RK_DEF)
+            r.meth = remap[r.meth];
+    q.events.clear();
+    for (auto e : p.events) {
+        if (e.op == OP_LOAD || e.op == OP_UNLOAD) {
+            std::vector<int> v;
+            for (int ri : e.recs)
+                if (ri >= 0 && ri < (int)remap.size() && remap[ri] >= 0)
+                    v.push_back(remap[ri]);
+            if (v.empty())
+                continue;
+            e.recs = v;
+        } else if (e.op == OP_RELOCATE) {
+            // the loader's decision: kept for every policy
+        } else {
+            if (e.pol != keep)
+                continue;
+            e.pol = 0;
+            if (e.op == OP_CALL || e.op == OP_VP_USE)
+                e.meth = remap[e.meth];
+        }
+        q.events.push_back(e);
+    }
+    return q;
+}
+
 RunResult run_plan(const Plan& plan, const ExecOpts& opts) {
     RunResult base = execute(plan, opts);
     if (base.status == RS_INVALID || plan.diff.empty())
@@ -2415,6 +2457,34 @@ RunResult run_plan(const Plan& plan, const ExecOpts& opts) {
             ++vi;
             if (has_focus(base) && opts.stop_at_first)
                 break;
+        }
+        return base;
+    }
+
+    if (plan.diff == "solo" && opts.solo) {
+        // C14: what a policy does must not depend on what other policies did
+        // before or meanwhile; compare with the same events of that policy
+        // alone, in a pristine process
+        for (int pi = 0; pi < (int)plan.pols.size() && plan.pols.size() > 1; ++pi) {
+            auto& pname = plan.pols[pi];
+            auto tit = base.tables.find(pname);
+            if (tit == base.tables.end() || !last_check(plan, pi))
+                continue;
+            Plan v = restrict_to_policy(plan, pi);
+            std::map<std::string, std::map<std::string, std::string>> tables;
+            if (!opts.solo(v, tables))
+                continue;
+            ++base.st.variants;
+            auto it = tables.find(pname);
+            std::string what;
+            if (it != tables.end() && first_diff(tit->second, it->second, what))
+                diff_violation(
+                    base, "C14", "solo-diff", "outcome-differs",
+                    "policy " + pname +
+                        " behaves differently next to the other policies of "
+                        "the plan than alone in a pristine process: " +
+                        what,
+                    pname);
         }
         return base;
     }
